@@ -245,6 +245,12 @@ def run_ds(case):
     upper = any(65 <= c <= 90 for l in owner for c in l)
     if upper:
         classes.append("upper-owner")
+    if kw[3] != 1:
+        ac = sum((kw[i] << 8) if i % 2 == 0 else kw[i] for i in range(len(kw)))
+        if (ac & 0xFFFF) + (ac >> 16) >= 0x10000:
+            classes.append("double-carry")
+        elif (ac & 0xFFFF) + (ac >> 16) >= 0xFFFE:
+            classes.append("just-below-double-carry")
     return {"nontrivial": True, "classes": classes}
 
 
@@ -254,8 +260,23 @@ def ds_cases(draw):
     b.u16()
     b.u8()
     b.u8(draw(st.sampled_from([1, 1, 5, 8, 13, 15, 253])))
-    b.raw(draw(st.one_of(st.binary(min_size=0, max_size=10), st.binary(min_size=32, max_size=70))))
-    return {"kind": draw(st.sampled_from(["DNSKEY", "DNSKEY", "CDNSKEY"])), "key": bytes(b.out).hex(),
+    b.raw(draw(st.one_of(st.binary(min_size=0, max_size=10), st.binary(min_size=32, max_size=70),
+                         st.binary(min_size=255, max_size=520))))
+    out = bytearray(b.out)
+    steer = draw(st.integers(0, 3))
+    if steer == 0 and len(out) >= 8 and out[3] != 1:
+        # aim the 16-bit word sum at the boundary where the single fold of RFC 4034 appendix B and a
+        # full ones'-complement fold differ (low half + high half reaches 0x10000)
+        if len(out) % 2:
+            out.append(draw(st.integers(0, 255)))
+        base = sum((out[i] << 8) | out[i + 1] for i in range(0, len(out) - 2, 2))
+        t = 0x10000 + draw(st.integers(-2, 2))
+        for h in ((base >> 16) + 1, base >> 16):
+            w = ((h << 16) | (t - h)) - base
+            if h >= 1 and 0 <= t - h <= 0xFFFF and 0 <= w <= 0xFFFF:
+                out[-2:] = bytes([w >> 8, w & 0xFF])
+                break
+    return {"kind": draw(st.sampled_from(["DNSKEY", "DNSKEY", "CDNSKEY"])), "key": bytes(out).hex(),
             "owner": G.hexl(draw(G.abs_name(max_wire=80)))}
 
 
@@ -451,7 +472,7 @@ def parts(tier):
              require={"wildcard-reduction": 200, "labels-gt": 100, "labels-eq": 300, "wild-owner": 50},
              shards={"quick": 4, "thorough": 16}),
         Part("ds", run_ds, strategy=ds_cases(), n={"quick": 2000, "thorough": 60000},
-             require={"alg1": 200, "keylen-odd": 200, "upper-owner": 100}, shards={"quick": 4, "thorough": 8}),
+             require={"alg1": 200, "keylen-odd": 200, "upper-owner": 100, "double-carry": 50, "just-below-double-carry": 20}, shards={"quick": 4, "thorough": 8}),
         Part("nsec3", run_nsec3, strategy=nsec3_cases(), n={"quick": 1500, "thorough": 40000},
              shards={"quick": 2, "thorough": 8}),
         Part("zone", run_zone, strategy=zone_cases(), n={"quick": 2000, "thorough": 50000},
